@@ -16,8 +16,9 @@ WithDef == << V("int", TRUE, VInt(7)), V("str", TRUE, VStr("dflt")), V("bool", T
               V("listint", TRUE, VList(<<1, 2>>)), V("enum", TRUE, VEnum("B")), V("int", TRUE, VNull), V("opt_int", TRUE, VNull) >>
 \* generic aliases: Optional[List[int]], Optional[Dict[str,int]], Optional[Tuple[int,str]] without default; Dict / Tuple
 NoDefX == << V("opt_listint", FALSE, NoVal), V("opt_dictint", FALSE, NoVal), V("opt_tupis", FALSE, NoVal), V("dictint", FALSE, NoVal), V("tupis", FALSE, NoVal) >>
-WithDefX == << V("dictint", TRUE, VDict([x \in {"a"} |-> 1])), V("tupis", TRUE, VTup(1, "x")) >>
-Variants == NoDef \o WithDef \o NoDefX \o WithDefX         \* 21 (type, default) variants of one parameter; 1..14 are the scalar / list ones
+WithDefX == << V("dictint", TRUE, VDict([x \in {"a"} |-> 1])), V("tupis", TRUE, VTup(1, "x")),
+              V("unionis", FALSE, NoVal), V("unionis", TRUE, VStr("ab")), V("unionis", TRUE, VStr("5")) >>       \* Union[int, str]; the last default is the recorded deviation
+Variants == NoDef \o WithDef \o NoDefX \o WithDefX         \* 24 (type, default) variants of one parameter; 1..14 are the scalar / list ones
 NV == Len(Variants)
 Names == <<"a", "b", "c", "d", "e", "f">>
 
@@ -27,6 +28,7 @@ Val(t, src, w) ==
   CASE IsOpt(t) /\ t # "opt_int" -> IF w = 1 THEN Val(Unopt(t), src, 1) ELSE VNull
     [] t = "dictint" -> IF w = 1 THEN VDict([x \in {"k"} |-> 3]) ELSE VDict(EmptyFn)
     [] t = "tupis"   -> IF w = 1 THEN VTup(4, "y") ELSE VTup(5, "z")
+    [] t = "unionis" -> IF w = 1 THEN VStr("ab") ELSE (IF src = "argv" THEN VInt(12) ELSE VStr("7"))
     [] t = "int"     -> IF w = 1 THEN VInt(3) ELSE VInt(-2)
     [] t = "str"     -> IF w = 1 THEN VStr("ab") ELSE (IF src = "argv" THEN VInt(12) ELSE VStr("cd"))
     [] t = "bool"    -> IF w = 1 THEN VBool(TRUE) ELSE VBool(FALSE)
@@ -36,6 +38,7 @@ Val(t, src, w) ==
 Wrong(t, src) ==
   CASE IsOpt(t) /\ t # "opt_int" -> Wrong(Unopt(t), src)
     [] t \in {"dictint", "tupis"} -> VInt(3)
+    [] t = "unionis" -> VBool(TRUE)                                   \* (a word: every text is a str)
     [] t = "int"     -> VStr("ab")
     [] t = "str"     -> IF src = "argv" THEN VBool(TRUE) ELSE VInt(12)      \* on the command line every text is a str
     [] t = "bool"    -> VInt(1)
@@ -93,10 +96,10 @@ F1 == {<<"F1", v, m, ap>> : v \in 1..NV, m \in 1..NM, ap \in 0..1}
 BuildF1(id) == LET v == id[2] m == id[3] ap == id[4] = 1 IN
   Case(id, ap, <<Leaf(<< >>, Fn("f", Sig(<<Variants[v]>>)))>>, LevelToks(Sig(<<Variants[v]>>), <<Modes[m]>>, ap, 0))
 \* F2: two parameters: every pair of variants x a square of modes
-M2 == IF Thorough THEN 1..NM ELSE {1, 2, 4, 7}
+M2 == IF Thorough THEN 1..NM ELSE {2, 4, 7}
 F2 == {<<"F2", v1, v2, m1, m2>> : v1 \in 1..14, v2 \in 1..14, m1 \in M2, m2 \in M2}
       \cup {id \in {<<"F2", v1, v2, mm[1], mm[2]>> : v1 \in 1..NV, v2 \in 1..NV,
-                                                         mm \in (IF Thorough THEN {2, 3, 4, 7} \X {2, 3, 4, 7} ELSE {<<3, 3>>, <<4, 4>>, <<2, 4>>, <<1, 1>>})}
+                                                         mm \in (IF Thorough THEN {2, 3, 4, 7} \X {2, 3, 4, 7} ELSE {<<3, 3>>, <<2, 4>>})}
                : id[2] > 14 \/ id[3] > 14}                                              \* pairs with a generic-alias variant
 BuildF2(id) == LET v1 == id[2] v2 == id[3] m1 == id[4] m2 == id[5] IN
   Case(id, TRUE, <<Leaf(<< >>, Fn("f", Sig(<<Variants[v1], Variants[v2]>>)))>>,
@@ -133,8 +136,11 @@ Pal == << << >>,                                                                
           <<P("_h", "pk", WithDef[1]), P("x", "pk", WithDef[3])>>,                      \* (_h: int = 7, x: bool = False)
           <<P("_h", "pk", NoDef[4]), P("x", "pk", WithDef[1])>>,                        \* (_h: Optional[int], x: int = 7)   the recorded deviation
           <<P("bb", "pk", WithDef[5]), P("x", "pk", WithDef[1])>>,                      \* (bb: List[int] = [1, 2], x: int = 7)   --b of a method is ambiguous (--bb, --bb+)
-          Sig(<<NoDefX[1], NoDefX[2], NoDefX[3]>>)                                      \* (a: Optional[List[int]], b: Optional[Dict[str,int]], *, c: Optional[Tuple[int,str]])   no defaults
+          Sig(<<NoDefX[1], NoDefX[2], NoDefX[3]>>),                                     \* (a: Optional[List[int]], b: Optional[Dict[str,int]], *, c: Optional[Tuple[int,str]])   no defaults
+          <<P("config", "pk", WithDef[1]), P("a", "pk", WithDef[1])>>,                  \* 11 (config: int = 7, a: int = 7)   METHODS ONLY: the recorded deviation
+          <<P("config", "pk", NoDef[1])>>                                               \* 12 (config: int)                  METHODS ONLY
        >>
+NPF == 10      \* palette entries usable as function / __init__ signature
 NP == Len(Pal)
 PalModes(ps, s) == [i \in 1..Len(ps) |-> Modes[((s + 3 * i) % NM) + 1]]
 
@@ -146,11 +152,15 @@ RECURSIVE FullMap(_, _, _, _)
 FullMap(c0, l, sel, expl) ==
   LET pm == AllMap(LvlParams(c0, l))
       subs == LvlSubSeq(c0, l)
-      secs == {subs[j] : j \in {q \in 1..Len(subs) : DOMAIN FullMap(c0, l \o <<subs[q]>>, sel, expl) # {}}}
+      secs == {subs[j] : j \in {q \in 1..Len(subs) : subs[q] # "config" /\ DOMAIN FullMap(c0, l \o <<subs[q]>>, sel, expl) # {}}}   \* (no section for a component called config: the key is the option's own dest)
       selk == IF expl /\ Len(subs) > 0 /\ Len(sel) > Len(l) /\ IsPrefixSeq(l, sel) THEN {"subcommand"} ELSE {}
   IN [x \in (DOMAIN pm) \cup secs \cup selk |->
         IF x \in selk THEN VStr(sel[Len(l) + 1])
         ELSE IF x \in secs THEN VMap(FullMap(c0, l \o <<x>>, sel, expl)) ELSE pm[x]]
+
+\* options for the callable that runs, after everything else: every other visible non-required parameter, a second value
+OptTail(ps) == LET idx == SelectSeq([i \in 1..Len(ps) |-> i], LAMBDA i : i % 2 = 1 /\ ~RefRequired(ps[i]) /\ ~RefHidden(ps[i]))
+               IN [j \in 1..Len(idx) |-> Tok("opt", ps[idx[j]].n, Val(ps[idx[j]].t, "argv", 2))]
 
 \* K: a class with 1..3 methods; the init and the called method get rotating modes; explicit sub-command word,
 \*    or everything in one config (implicit selection)
@@ -173,12 +183,15 @@ BuildK(id) ==
             [] form = 4 -> LevelToks(init, PalModes(init, s), TRUE, 0)                                   \* no sub-command at all
             [] form = 6 -> <<CfgTok(FullMap([leaves |-> <<Leaf(<< >>, comp)>>], << >>, <<MethNames[call]>>, TRUE))>>    \* selected inside the config, sibling sections
             [] form = 7 -> <<CfgTok(FullMap([leaves |-> <<Leaf(<< >>, comp)>>], << >>, <<MethNames[call]>>, FALSE))>>   \* implicit, several sibling sections
+            [] form = 8 -> <<CfgTok(FullMap([leaves |-> <<Leaf(<< >>, comp)>>], << >>, <<MethNames[call]>>, FALSE))>>   \* sections for all methods, the WORD names one
+                           \o <<PosTok(VStr(MethNames[call]))>> \o OptTail(mp)
             [] OTHER    -> LevelToks(init, PalModes(init, s), TRUE, 0) \o <<PosTok(VStr("zz"))>>)        \* unknown sub-command
 KS == IF Thorough THEN {0, 2, 3, 5, 7, 9} ELSE {0, 7}
-K1 == {<<"K", i0, <<j>>, 1, s, f>> : i0 \in 1..NP, j \in 1..NP, s \in KS, f \in 1..5}
-K2 == {<<"K", i0, <<j1, j2>>, c, s, f>> : i0 \in {1, 2, 4, 7, 9, 10}, j1 \in 1..NP, j2 \in {1, 3, 5}, c \in 1..2, s \in KS, f \in 1..3}
-KX == {<<"K", i0, <<j1, j2>>, c, 0, f>> : i0 \in {1, 2, 4, 7, 9, 10}, j1 \in 1..NP, j2 \in {1, 3, 5}, c \in 1..2, f \in 6..7}
-      \cup {<<"K", i0, <<j1, j2, 3>>, c, 0, f>> : i0 \in {1, 3}, j1 \in {2, 4, 6, 10}, j2 \in {3, 5}, c \in 1..3, f \in 6..7}
+KJ == IF Thorough THEN 1..NP ELSE {2, 3, 4, 6, 8, 9, 10, 11}
+K1 == {<<"K", i0, <<j>>, 1, s, f>> : i0 \in 1..NPF, j \in 1..NP, s \in (IF Thorough THEN KS ELSE {0}), f \in 1..5}
+K2 == {<<"K", i0, <<j1, j2>>, c, s, f>> : i0 \in {1, 2, 4, 7, 9, 10}, j1 \in KJ, j2 \in {1, 3, 5}, c \in 1..2, s \in KS, f \in 1..3}
+KX == {<<"K", i0, <<j1, j2>>, c, 0, f>> : i0 \in {1, 2, 4, 7, 9, 10}, j1 \in KJ, j2 \in {1, 3, 5}, c \in 1..2, f \in 6..8}
+      \cup {<<"K", i0, <<j1, j2, 3>>, c, 0, f>> : i0 \in {1, 3, 7}, j1 \in {2, 4, 6, 10}, j2 \in {3, 5, 11}, c \in 1..3, f \in 6..8}
 K3 == {<<"K", i0, <<j1, j2, 1>>, c, s, f>> : i0 \in {1, 3}, j1 \in {2, 4, 6}, j2 \in {3, 5}, c \in 1..3, s \in KS, f \in 1..2}
 
 \* T: lists and nested dicts of functions (and a class inside them)
@@ -188,6 +201,9 @@ TLeaves(shape, j1, j2, j3) ==
     [] shape = 3 -> <<Leaf(<<"grp", "f">>, Fn("f", Pal[j1])), Leaf(<<"grp", "g">>, Fn("g", Pal[j2])), Leaf(<<"h">>, Fn("h", Pal[j3]))>>   \* {"grp": {"f": f, "g": g}, "h": h}
     [] shape = 4 -> <<Leaf(<<"top", "mid", "f">>, Fn("f", Pal[j1])), Leaf(<<"top", "g">>, Fn("g", Pal[j2])), Leaf(<<"h">>, Fn("h", Pal[j3]))>>
     [] shape = 5 -> <<Leaf(<<"K">>, Cls("K", Pal[j1], <<Meth("m1", Pal[j2]), Meth("m2", Pal[j3])>>)), Leaf(<<"h">>, Fn("h", Pal[j3]))>>   \* [K, h]
+    [] shape = 7 -> <<Leaf(<<"top", "mid", "f">>, Fn("f", Pal[j1])), Leaf(<<"top", "mid", "g">>, Fn("g", Pal[j2])),              \* {"top": {"mid": {f, g}, "alt": {h}}, "u": u}
+                      Leaf(<<"top", "alt", "h">>, Fn("h", Pal[j3])), Leaf(<<"u">>, Fn("u", Pal[j3]))>>
+    [] shape = 8 -> <<Leaf(<<"config">>, Fn("config", Pal[j1])), Leaf(<<"h">>, Fn("h", Pal[j3]))>>                              \* a component called config (recorded deviation)
     [] OTHER     -> <<Leaf(<<"grp", "K">>, Cls("K", Pal[j1], <<Meth("m1", Pal[j2]), Meth("m2", Pal[j3])>>)), Leaf(<<"f">>, Fn("f", Pal[j3]))>>
 RECURSIVE Words(_), NestMap(_, _)
 Words(path) == IF path = << >> THEN << >> ELSE <<PosTok(VStr(Head(path)))>> \o Words(Tail(path))
@@ -210,10 +226,17 @@ BuildT(id) ==
             [] form = 4 -> Words(FrontSeq(lf.path))                                                                          \* stops before the leaf
             [] form = 6 -> <<CfgTok(FullMap([leaves |-> leaves], << >>, lf.path \o (IF iscls THEN <<"m1">> ELSE << >>), TRUE))>>     \* selected inside the config at every level
             [] form = 7 -> <<CfgTok(FullMap([leaves |-> leaves], << >>, lf.path \o (IF iscls THEN <<"m1">> ELSE << >>), FALSE))>>    \* implicit at every level, sibling sections
+            [] form = 8 -> LET kk == IF s > Len(lf.path) THEN Len(lf.path) ELSE s                                                    \* --config after kk words (root, after a group name, after the leaf's name),
+                               at == SubSeq(lf.path, 1, kk)                                                                          \*   with sections for ALL siblings and no "subcommand" key; the words name the component
+                           IN Words(at) \o <<CfgTok(FullMap([leaves |-> leaves], at, lf.path \o (IF iscls THEN <<"m1">> ELSE << >>), FALSE))>>
+                              \o Words(SubSeq(lf.path, kk + 1, Len(lf.path))) \o (IF iscls THEN <<PosTok(VStr("m1"))>> ELSE << >>) \o OptTail(IF iscls THEN mp ELSE ps)
             [] OTHER    -> Words(FrontSeq(lf.path)) \o <<PosTok(VStr("zz"))>>)
-TS == IF Thorough THEN {0, 3, 4, 8} ELSE {0, 3}
-TJ == IF Thorough THEN 1..NP ELSE {2, 3, 5, 10}
+TS == IF Thorough THEN {0, 3, 4, 8} ELSE {3}
+TJ == IF Thorough THEN 1..NPF ELSE {2, 3, 5, 10}
 TX == {<<"T", sh, j1, j2, j3, w, 0, f>> : sh \in 1..6, j1 \in TJ, j2 \in {4, 6, 10}, j3 \in {1, 3}, w \in 1..3, f \in 6..7}
+      \cup {<<"T", sh, j1, j2, 3, w, k, 8>> : sh \in 1..8, j1 \in TJ, j2 \in {4, 6}, w \in 1..3, k \in 0..3}          \* --config at every level of the path
+      \cup {<<"T", 7, j1, j2, 3, w, 0, f>> : j1 \in TJ, j2 \in {4, 6}, w \in 1..3, f \in {1, 6, 7}}
+      \cup {<<"T", 8, j1, j2, 3, w, 0, 1>> : j1 \in TJ, j2 \in {4, 6}, w \in 1..3}
 T == {<<"T", sh, j1, j2, j3, w, s, f>> : sh \in 1..6, j1 \in TJ, j2 \in (IF Thorough THEN {1, 4, 6} ELSE {4, 6}), j3 \in {1, 3}, w \in 1..3, s \in TS, f \in 1..5}
 
 Ids == IF Thorough THEN F1 \cup F2 \cup FN(3) \cup FN(4) \cup FN(5) \cup FN(6) \cup F3full \cup K1 \cup K2 \cup K3 \cup KX \cup T \cup TX
